@@ -8,17 +8,17 @@ import (
 
 // silSetFacts resolves the sites of Silences.Set shared by C12, C18 and C02.
 type silSetFacts struct {
-	fn              *ssa.Function
-	get             ssa.CallInstruction // getSilence(recv, sil.Id)
-	found, canUpd   LitM
-	prev            string
-	validate        ssa.CallInstruction
-	setCalls        []ssa.CallInstruction // setSilence calls
-	expCalls        []ssa.CallInstruction // expire calls
+	fn               *ssa.Function
+	get              ssa.CallInstruction // getSilence(recv, sil.Id)
+	found, canUpd    LitM
+	prev             string
+	validate         ssa.CallInstruction
+	setCalls         []ssa.CallInstruction // setSilence calls
+	expCalls         []ssa.CallInstruction // expire calls
 	updSets, creSets []ssa.CallInstruction // in-place / create setSilence calls
-	sizeOK          LitM
-	mutating        func(ssa.Instruction) bool
-	createPathReach *Reached
+	sizeOK           LitM
+	mutating         func(ssa.Instruction) bool
+	createPathReach  *Reached
 }
 
 func resolveSilSet(o *Ob) *silSetFacts {
